@@ -385,9 +385,7 @@ def blame(text, mode, ok, val, pw, tool=False):
         return "unparsable-text-accepted"
     if pw == "transform":
         return "transform-pathway:value"
-    prefix = ""
     if pw == "tool":
-        prefix = "toolcall-args:"
         for k in _kids(node):
             if _math_mismatch(ast.unparse(k)):
                 node = k
@@ -416,7 +414,7 @@ def blame(text, mode, ok, val, pw, tool=False):
                 node = k
                 break
         else:
-            return prefix + _node_key(node)
+            return _node_key(node)
 
 
 def judge(text, modes, tool, acc):
